@@ -6,6 +6,7 @@ import (
 	"fmt"
 	"math"
 	"reflect"
+	"strings"
 
 	"github.com/kercylan98/vivid"
 	_ "github.com/kercylan98/vivid/internal/actor"
@@ -225,6 +226,7 @@ func sequenceCheck() *venum.Check {
 			name string
 			want string
 			data []byte
+			v    any
 		}
 		var all []enc
 		for _, n := range names {
@@ -237,7 +239,7 @@ func sequenceCheck() *venum.Check {
 				if err != nil {
 					continue
 				}
-				all = append(all, enc{n, vcodec.CanonMessage(n, v), data})
+				all = append(all, enc{n, vcodec.CanonMessage(n, v), data, v})
 			}
 		}
 		// every encoding is still intact after all the later encodes
@@ -286,6 +288,30 @@ func sequenceCheck() *venum.Check {
 					messages.ReleaseReaderToPool(r2)
 				})
 			}
+		}
+		// an encode that fails must not poison the next encode (writers are pooled as well)
+		for i, e := range all {
+			c.Case(fmt.Sprintf("encode-after-failure|%d", i), true)
+			in := map[string]any{"type": e.name, "value": e.want, "encoded_right_after": "a verifShortTagMsg whose 300-byte tag cannot be represented"}
+			safely(c, "roundtrip-no-panic", in, func() {
+				bad := mailbox.NewEnvelop(false, vcodec.Refs()[1], vcodec.Refs()[2], &vcodec.ShortTagMsg{Tag: strings.Repeat("t", 300)})
+				if _, err := serialize.EncodeEnvelopWithRemoting(codec, bad); err == nil {
+					c.Fail("unrepresentable-value-rejected", in, "a 300-byte short string was encoded without an error")
+				}
+				data, err := serialize.EncodeEnvelopWithRemoting(codec, mailbox.NewEnvelop(false, vcodec.Refs()[1], vcodec.Refs()[2], e.v))
+				if err != nil {
+					c.Fail("encode-after-failed-encode", in, "a valid message failed to encode right after another message was rejected: %v", err)
+					return
+				}
+				_, _, _, _, _, back, err := serialize.DecodeEnvelopWithRemoting(codec, data)
+				if err != nil {
+					c.Fail("encode-after-failed-encode", in, "the encoding produced right after a rejected message does not decode: %v", err)
+					return
+				}
+				if got := vcodec.CanonMessage(e.name, back); got != e.want {
+					c.Fail("encode-after-failed-encode", in, "the encoding produced right after a rejected message decodes to %s", got)
+				}
+			})
 		}
 		c.Sample(map[string]any{"encodings_in_sequence": len(all)})
 	}}
